@@ -1,4 +1,5 @@
 import asyncio
+import math
 import sys
 
 from klongpy.core import KGCall, KGFn, KGFnWrapper
@@ -10,6 +11,7 @@ class KGTimerHandler:
         self.interval = interval
         self.delegate = None
         self.cancelled = False
+        self.tick = 0
 
     def cancel(self):
         if self.delegate is None:
@@ -35,7 +37,10 @@ def _call_periodic(loop: asyncio.BaseEventLoop, name, interval, callback):
             if interval == 0:
                 handle.delegate = loop.call_soon(run, handle)
             else:
-                handle.delegate = loop.call_later(interval - ((loop.time() - start) % interval), run, handle)
+                # next boundary by index: never the one that has just fired, even when the loop
+                # dispatched it exactly on (or within clock resolution before) its deadline
+                handle.tick = max(handle.tick + 1, math.floor((loop.time() - start) / interval) + 1)
+                handle.delegate = loop.call_at(start + handle.tick * interval, run, handle)
         else:
             handle.cancel()
 
@@ -43,6 +48,7 @@ def _call_periodic(loop: asyncio.BaseEventLoop, name, interval, callback):
     if interval == 0:
         periodic.delegate = loop.call_soon(run, periodic)
     else:
+        periodic.tick = 1
         periodic.delegate = loop.call_at(start + interval, run, periodic)
 
     return periodic
